@@ -326,6 +326,20 @@ def r8(ctx):
                  key=f'{q}:finally-keeps-exception', witness={'fault': f'exception inside the try body of {q}', 'outcome': 'discarded by the jump in finally'} if js else None,
                  what=f'{q}: a jump in a finally suite swallows the failure')
     ctx.need('C20-R8', n, len(PIPELINE_STEPS), 'pipeline step functions')
+    # a shell command run by one of the steps (and by the header rewrite they call) fails through its exit status only: the status is used (compared, asserted, returned),
+    # never dropped as an expression statement
+    mod = ctx.ix.module(BAMFUNC)
+    for rel, q in PIPELINE_STEPS + [(BAMFUNC, 'replace_bam_header')]:
+        f = ctx.fn(rel, q)
+        m_ = ctx.ix.module(rel)
+        for c in [x for x in walk_no_nested(f) if isinstance(x, ast.Call) and (dotted(x.func) or '') in ('os.system', 'subprocess.call', 'subprocess.run')]:
+            par = m_.parent.get(c)
+            checked_run = dotted(c.func) == 'subprocess.run' and any(k.arg == 'check' and isinstance(k.value, ast.Constant) and k.value.value is True for k in c.keywords)
+            dropped = isinstance(par, ast.Expr) and not checked_run
+            ctx.emit('C20-R8', not dropped, rel, c, f'{q}: the exit status of `{src(c)[:50]}` is used' if not dropped else
+                     f'{q}: `{src(c)[:60]}` is run and its exit status dropped: when the command fails the step goes on with the stale / partial file and the run ends with the success status',
+                     key=f'{q}:shell-status-used:{src(c.args[0])[:30] if c.args else ""}', witness={'fault': 'the shell command exits non-zero', 'outcome': 'ignored'} if dropped else None,
+                     what=f'{q}: the exit status of a shell command is ignored', nontrivial=False)
     # pool submission: imap / imap_unordered / map re-raise the worker's exception when the result is consumed; apply_async / map_async only in .get()
     f = ctx.fn(BTM, 'tag_multiome_multi_processing')
     subs = [c for c in walk_no_nested(f) if isinstance(c, ast.Call) and isinstance(c.func, ast.Attribute) and c.func.attr in ('imap', 'imap_unordered', 'map', 'starmap', 'apply_async', 'map_async', 'starmap_async', 'apply', 'submit')
